@@ -428,6 +428,8 @@ def worker_streams(run, thorough):
                         continue
                     n = rng.choice(sizes) if rng.random() < 0.5 else rng.choice(sizes) * t + rng.randrange(0, 4)
                     n = min(n, 400000 if not thorough else 1 << 21)
+                    if q >= 10:
+                        n = min(n, 120000)      # the slow qualities: keep every call well inside the watchdog's budget
                     w = rng.choice([10, 16, 18, 22, 24] + ([26, 30] if f & 16 else []))
                     cases.append(mc.Case("thr", q, w, f, t, kind, n, rng.randrange(1, 1 << 30)))
     for q in (10, 11):
